@@ -15,9 +15,9 @@ PROP = "C05"
 QUICK_RUNS = 6000
 THOROUGH_WAVE = 8000
 RULE = (
-    "one case = one model (type, n_v<=4, n_h<=4, n_a<=3, parameter scale up to 30, all biases non-zero) and a "
+    "one case = one model (type, n_v<=4, n_h<=4, n_a<=3, parameter scale up to 30, all biases non-zero; 6 % metastable two-well models) and a "
     "history of 3-12 sampling operations (fresh start / given 1-D or 2-D start of any dtype / chain continued "
-    "from an earlier result; overwrite on/off; via state.sample or rbm.gibbs_steps; k in 0..8; re-parametrisation "
+    "from an earlier result; overwrite on/off; via state.sample or rbm.gibbs_steps; 1-D/2-D/3-D starts, the per-batch gradient method called directly; k in 0..16 and, rarely, 33..320; re-parametrisation "
     "in between) under an honest or rare-outcome-forcing Bernoulli stream; non-trivial = at least one operation "
     "with k>=1 whose every draw was refined against the enumerated table; distinct = distinct abstract trace "
     "(type, sizes, op kinds, k, start kinds, overwrite flags, draw-structure verdicts)"
